@@ -893,7 +893,7 @@ class dictable(Dict):
         res = []
         row = []
         for key, i in keys2id:
-            if len(row) == 0 or key==prev:
+            if len(row) == 0 or key==prev or cmp(key, prev) == 0: ## keys that sort as equal (two nan objects) are one group
                 row.append(i)
             else:
                 res.append((prev, row))
@@ -1128,7 +1128,7 @@ class dictable(Dict):
                     l+=1
                 while l<ls and r<rs and cmp(lxs[l],rxs[r]) == 1:
                     r+=1
-                if l<ls and r<rs and lxs[l] == rxs[r]:
+                if l<ls and r<rs and cmp(lxs[l],rxs[r]) == 0:
                     res.append((lxs[l], lids[l], rids[r]))
                     r+=1
                     l+=1
@@ -1228,7 +1228,7 @@ class dictable(Dict):
                 if mode == 1:
                     res.append(rids[r])                    
                 r+=1
-            if l<ls and r<rs and lxs[l] == rxs[r]:
+            if l<ls and r<rs and cmp(lxs[l],rxs[r]) == 0:
                 r+=1
                 l+=1
         if mode == 0:
